@@ -89,6 +89,8 @@ class MapCfg(object):
                 return str(rng.choice([0, 1, 2, 3, 5, 7, 12, 200 if BITS[dt] >= 8 else 1, rng.randint(0, 100)]))
             return str(rng.choice([0, 1, -1, 2, 3, -5, 7, 12, rng.randint(-100, 100)]))
         if dt in FLT_DTYPES:
+            if rng.random() < 0.3:
+                return str(rng.randint(-3, 3))       # a few favourite values (arithmetic can land on a sentinel)
             return dy(rng)
         if dt == 'b1':
             return rng.choice('TF')
@@ -329,6 +331,15 @@ def scalar_op_line(rng, c, inplace=None, r='t1'):
         else:
             k = rng.choice([0, 1, -1, 2, 3, -5, 12])
         return "sop %s op=%s k=%d ktype=int%s" % (c.name, op, k, tail)
+    if c.is_flt and c.sentinel in ('0', '1^1', '-9999') and rng.random() < 0.35:
+        # aim at the sentinel: some valid pixels become invalid through arithmetic
+        if c.sentinel == '0' and rng.random() < 0.3:
+            return "sop %s op=mul k=0 ktype=%s%s" % (c.name, rng.choice(['flt', 'int']), tail)
+        v = rng.randint(-3, 3)
+        two_s = {'0': 0, '1^1': 1, '-9999': -19998}[c.sentinel]      # 2 * sentinel
+        n2 = two_s - 2 * v                                            # 2 * (sentinel - v)
+        k = str(n2 // 2) if n2 % 2 == 0 else "%d^1" % n2
+        return "sop %s op=add k=%s ktype=flt%s" % (c.name, k, tail)
     if c.is_flt:
         op = rng.choice(['add', 'sub', 'mul', 'div', 'pow'])
         if op == 'div':
